@@ -266,7 +266,7 @@ func c14Wide(g *Gen, rep *Report, outDir string, n int) error {
 	// the witnesses of Props/C14.v, replayed
 	wit := [][3]string{
 		{"http://h/./\xe2%84%aa", "http://h/\xe2%84%aa", "http://h/\xef\xbf\xbd%84%AA"}, // invalid UTF-8: c~a, a~b, c!~b
-		{"http://h/?X=%4a", "http://h/?x=%4a", "http://h/./?x=%4A"},                      // mixed query case
+		{"http://h/?X=%4a", "http://h/?x=%4a", "http://h/./?x=%4A"},                     // mixed query case
 	}
 	for wi, w := range wit {
 		ab, bc, ac := ap.IRI(w[0]).Equals(ap.IRI(w[1]), false), ap.IRI(w[1]).Equals(ap.IRI(w[2]), false), ap.IRI(w[0]).Equals(ap.IRI(w[2]), false)
